@@ -118,6 +118,9 @@ func run(c *vf.Ctx) {
 	}
 
 	// ---- Parts G, F, T ----
+	if want("X") {
+		timed(c, "X data-exchange schedules", func() { schedulePart(c) })
+	}
 	if want("G") {
 		timed(c, "G grid", func() { gridPart(c) })
 	}
